@@ -692,7 +692,9 @@ var $makeSlice = (typ, length, capacity = length) => {
 
 var $structTypes = {};
 var $structType = (pkgPath, fields) => {
-    var typeKey = $mapArray(fields, f => { return f.name + "," + f.typ.id + "," + f.tag; }).join("$");
+    /* Unexported field names belong to their package, and an embedded field differs from a
+       named field of the same name: both are part of the type's identity. */
+    var typeKey = $mapArray(fields, f => { return f.name + "," + f.typ.id + "," + f.tag + "," + (f.exported ? "" : pkgPath) + "," + (f.embedded ? "e" : ""); }).join("$");
     var typ = $structTypes[typeKey];
     if (typ === undefined) {
         var string = "struct { " + $mapArray(fields, f => {
